@@ -81,6 +81,7 @@ type History struct {
 	NH    int      `json:"nh"`
 	Cfg   Cfg      `json:"cfg"`
 	Names []string `json:"universe"` // extra names (seek keys) that take part in the ranking
+	Dir   string   `json:"dir"`      // use (and keep) this directory instead of a temporary one
 	Steps []Step   `json:"steps"`
 }
 
@@ -509,11 +510,17 @@ func fill(ev map[string]interface{}) {
 func (r *runner) exec() Out {
 	h := r.h
 	out := Out{ID: h.ID, NH: h.NH, Names: [][]string{}, Strs: []string{}, Events: []map[string]interface{}{}}
-	dir, err := realos.MkdirTemp("", "store-")
-	if err != nil {
-		panic(err)
+	dir := h.Dir
+	if dir == "" {
+		var err error
+		dir, err = realos.MkdirTemp("", "store-")
+		if err != nil {
+			panic(err)
+		}
+		defer realos.RemoveAll(dir)
+	} else {
+		realos.MkdirAll(dir, 0755)
 	}
-	defer realos.RemoveAll(dir)
 	r.dir = dir
 	r.cfg = reftable.Config{BlockSize: h.Cfg.BlockSize, RestartInterval: h.Cfg.Restart, Unaligned: h.Cfg.Unaligned,
 		SkipIndexObjects: h.Cfg.SkipIndex, ExactLogMessage: h.Cfg.Exact, SkipNameCheck: h.Cfg.SkipName}
